@@ -35,7 +35,7 @@ func init() {
 	register(&run.Check{
 		ID:    "C16",
 		Level: "fault_enumeration",
-		Rule: "exhaustive fault enumeration: inputs = every sequence of <=3 (quick: 3 over a 30-fragment core) fragments over F x policies {comments on/off, space insertion on/off, AllowUnsafe script/style text, element patterns, UGC}; the fault-free write sequence w_1..w_m is recorded, then for every k<=m and each fault kind (only w_k fails; w_k and all later fail; w_k accepts half and fails) and both writer kinds the run is repeated; " +
+		Rule: "exhaustive fault enumeration: inputs = every sequence of <=3 (quick: 3 over a 30-fragment core) fragments over F x policies {comments on/off, space insertion on/off, AllowUnsafe script/style text, element patterns, UGC}; the fault-free write sequence w_1..w_m is recorded, then for every k<=m and each fault kind (only w_k fails; w_k and all later fail; w_k accepts half and fails) and both writer kinds the run is repeated (the injected error rotates through five values: generic, io.EOF, io.ErrShortWrite, io.ErrClosedPipe, a timeout; all five at the first write); " +
 			"and for every byte offset j<=n the reader delivers data[:j] and then a non-EOF error (six kinds: generic, io.ErrUnexpectedEOF, io.ErrClosedPipe, io.ErrNoProgress, a timeout error, a wrapped error). Oracle: the returned error is non-nil, the writer sees no call after the failing one, the accepted bytes are a prefix of the fault-free output, SanitizeReader returns an empty buffer on reader failure. " +
 			"non-trivial = distinct (policy, input, fault) runs in which the fault was actually reached.",
 		Assumptions: []string{"faults are injected at the io.Reader / io.Writer seam of the exported API only"},
@@ -96,7 +96,11 @@ func (p plainWriter) Write(b []byte) (int, error) { return p.w.Write(b) }
 var errBoom = errors.New("injected fault")
 
 // faultWriter records writes and injects a fault at write index failAt (0-based).
+// writeErrKinds: what a destination may fail with.
+var writeErrKinds = []error{errBoom, io.EOF, io.ErrShortWrite, io.ErrClosedPipe, timeoutErr{}}
+
 type faultWriter struct {
+	failErr    error
 	buf        bytes.Buffer
 	calls      int
 	failAt     int // -1 = never
@@ -115,12 +119,16 @@ func (f *faultWriter) Write(b []byte) (int, error) {
 	}
 	if f.failAt >= 0 && (i == f.failAt || (f.kind == 1 && i > f.failAt)) {
 		f.failed = true
+		e := f.failErr
+		if e == nil {
+			e = errBoom
+		}
 		if f.kind == 2 && i == f.failAt {
 			h := len(b) / 2
 			f.buf.Write(b[:h])
-			return h, errBoom
+			return h, e
 		}
-		return 0, errBoom
+		return 0, e
 	}
 	f.buf.Write(b)
 	return len(b), nil
@@ -306,6 +314,18 @@ func runC15(c *run.Ctx) {
 		}
 	}
 	all := fragAll()
+	// whitespace-only inputs (ASCII and Unicode white space, CR/LF forms): returned unchanged by Sanitize and SanitizeBytes
+	SeqsS(c, "c15blank", []string{" ", "\t", "\n", "\r", "\v", "\f", "\u00a0", "\u0085", "\u2003", "\u3000", "\ufeff"}, 1, 4, func(in []byte, _ []int) {
+		for i := range bs[:2] {
+			if _, sig, what := judgeC15Base(&bs[i], in); sig != "" {
+				c.Violate(sig, fmt.Sprintf("%s; policy=%s input=%s", what, bs[i].S.Name, run.Q(string(in))), mkCase(bs[i].S, in))
+				c.Outcome("violation|" + sig)
+			} else {
+				c.Outcome("blank-or-space-input-consistent")
+			}
+			c.Eval()
+		}
+	})
 	SeqsS(c, "c15", all, 0, 2, func(in []byte, _ []int) { evalInput(in, true) })
 	k3 := fragCore
 	if !c.Quick() {
@@ -427,6 +447,7 @@ type c16Fault struct {
 	Index  int    `json:"index"`
 	Kind   int    `json:"kind"`
 	String bool   `json:"string_writer"`
+	Err    int    `json:"error_kind"` // index into writeErrKinds
 }
 
 func c16Specs() []built {
@@ -442,11 +463,11 @@ func runWriteFault(p *bluemonday.Policy, in []byte, f c16Fault) (fw *faultWriter
 		}
 	}()
 	if f.String {
-		w := &faultStringWriter{faultWriter{failAt: f.Index, kind: f.Kind}}
+		w := &faultStringWriter{faultWriter{failAt: f.Index, kind: f.Kind, failErr: writeErrKinds[f.Err%len(writeErrKinds)]}}
 		err = p.SanitizeReaderToWriter(bytes.NewReader(in), w)
 		return &w.faultWriter, err, ""
 	}
-	w := &faultWriter{failAt: f.Index, kind: f.Kind}
+	w := &faultWriter{failAt: f.Index, kind: f.Kind, failErr: writeErrKinds[f.Err%len(writeErrKinds)]}
 	err = p.SanitizeReaderToWriter(bytes.NewReader(in), w)
 	return w, err, ""
 }
@@ -544,22 +565,28 @@ func runC16(c *run.Ctx) {
 			for k := 0; k < m; k++ {
 				for kind := 0; kind < 3; kind++ {
 					for sw := 0; sw < 2; sw++ {
-						f := c16Fault{Mode: "write", Index: k, Kind: kind, String: sw == 1}
-						sig, what, reached := judgeWriteFault(b.P, in, f, ref)
-						c.Eval()
-						c.Transitions++
-						c.Traces++
-						if reached {
-							c.NontrivialN++
-						}
-						if sig != "" {
-							cs := mkCase(b.S, in)
-							ex, _ := json.Marshal(f)
-							cs.Extra = ex
-							c.Violate(sig, fmt.Sprintf("%s; policy=%s input=%s fault=%s", what, b.S.Name, run.Q(string(in)), string(ex)), cs)
-							c.Outcome("violation|" + sig)
-						} else {
-							c.Outcome("write-fault-reported")
+						// the error value rotates through the kinds with the write index and fault kind; index 0 additionally tries all of them
+						for ek := 0; ek < len(writeErrKinds); ek++ {
+							if k > 0 && ek != (k+kind)%len(writeErrKinds) {
+								continue
+							}
+							f := c16Fault{Mode: "write", Index: k, Kind: kind, String: sw == 1, Err: ek}
+							sig, what, reached := judgeWriteFault(b.P, in, f, ref)
+							c.Eval()
+							c.Transitions++
+							c.Traces++
+							if reached {
+								c.NontrivialN++
+							}
+							if sig != "" {
+								cs := mkCase(b.S, in)
+								ex, _ := json.Marshal(f)
+								cs.Extra = ex
+								c.Violate(sig, fmt.Sprintf("%s; policy=%s input=%s fault=%s", what, b.S.Name, run.Q(string(in)), string(ex)), cs)
+								c.Outcome("violation|" + sig)
+							} else {
+								c.Outcome("write-fault-reported")
+							}
 						}
 					}
 				}
